@@ -1513,3 +1513,90 @@ mod tests {
         );
     }
 }
+
+// Verification hook (C04 shape correspondence; read-only, add-only): the logical shape of the tree as
+// this write transaction currently sees it, uncommitted pages included.
+#[cfg(redb_verif)]
+impl<K: Key + 'static, V: Value + 'static> BtreeMut<K, V> {
+    pub(crate) fn verif_shape(&self) -> Result<crate::verif::VShape> {
+        let mut nodes = vec![];
+        let length = match self.root {
+            Some(header) => {
+                self.verif_shape_helper(header.root, 0, &mut nodes)?;
+                header.length
+            }
+            None => 0,
+        };
+        Ok(crate::verif::VShape { length, nodes })
+    }
+
+    fn verif_shape_helper(
+        &self,
+        page_number: PageNumber,
+        depth: u32,
+        nodes: &mut Vec<crate::verif::VShapeNode>,
+    ) -> Result {
+        use crate::verif::{VPage, VShapeNode};
+        if depth as usize > MAX_BTREE_DEPTH {
+            return Err(StorageError::Corrupted(
+                "Btree exceeded maximum depth".to_string(),
+            ));
+        }
+        let page = self.page_allocator.get_page(page_number, PageHint::None)?;
+        let uncommitted = self.page_allocator.uncommitted(page_number);
+        match page.memory()[0] {
+            LEAF => {
+                let accessor = LeafAccessor::new(page.memory(), K::fixed_width(), V::fixed_width());
+                let mut keys = vec![];
+                let mut value_lens = vec![];
+                for i in 0..accessor.num_pairs() {
+                    let entry = accessor.entry(i).unwrap();
+                    keys.push(entry.key().to_vec());
+                    value_lens.push(entry.value().len());
+                }
+                nodes.push(VShapeNode {
+                    depth,
+                    leaf: true,
+                    page: VPage::of(page_number),
+                    uncommitted,
+                    allocated_len: page.memory().len(),
+                    used_len: accessor.total_length(),
+                    keys,
+                    value_lens,
+                    children: 0,
+                });
+            }
+            BRANCH => {
+                let accessor = BranchAccessor::new(&page, K::fixed_width());
+                let count = accessor.count_children();
+                let mut keys = vec![];
+                for i in 0..(count - 1) {
+                    keys.push(accessor.key(i).unwrap().to_vec());
+                }
+                nodes.push(VShapeNode {
+                    depth,
+                    leaf: false,
+                    page: VPage::of(page_number),
+                    uncommitted,
+                    allocated_len: page.memory().len(),
+                    used_len: accessor.total_length(),
+                    keys,
+                    value_lens: vec![],
+                    children: count,
+                });
+                let children: Vec<PageNumber> =
+                    (0..count).map(|i| accessor.child_page(i).unwrap()).collect();
+                drop(page);
+                for child in children {
+                    self.verif_shape_helper(child, depth + 1, nodes)?;
+                }
+            }
+            _ => {
+                return Err(StorageError::Corrupted(
+                    "verif_shape: page is neither a leaf nor a branch".to_string(),
+                ));
+            }
+        }
+        Ok(())
+    }
+}
